@@ -1006,6 +1006,11 @@ class _ColumnsParsedFmt:
 
         # 1.2. parse width limits
         # It may be either a number or range
+        if width_fmt.endswith(')') and '(' in width_fmt:
+            # "3-10(7)": actual width of the column is reported in brackets
+            # (check ReprColumn.to_fmt_str). It is not a part of column description
+            width_fmt = width_fmt[:width_fmt.index('(')].strip()
+
         if width_fmt == '-1':
             # special value: column object will not be created from it
             result.min_w = -1
